@@ -381,6 +381,61 @@ def whole_runs(ctx):
         os.chdir(cwd)
 
 
+def init_changes_directory(ctx):
+    """a condition script whose init() hook changes the working directory (it builds its target in a work directory): the
+    run's tmpN is ONE directory — the one that is created is the one the files go to — and an older tmpN of the work directory
+    is not written into"""
+    from lithium.reducer import Lithium
+    from lithium.strategies import Minimize
+    from lithium.testcases import TestcaseLine
+
+    cwd = os.getcwd()
+    start = fresh_dir("c20-chdir-start")
+    work = fresh_dir("c20-chdir-work")
+    (work / "tmp1").mkdir()
+    (work / "tmp1" / "original.txt").write_bytes(b"older run")
+    path = start / "tc.txt"
+    path.write_bytes(b"a\nb\nc\n")
+    tc = TestcaseLine()
+    tc.load(path)
+
+    class Test:
+        @staticmethod
+        def init(args):
+            os.chdir(work)
+
+        @staticmethod
+        def interesting(args, prefix):
+            return b"b" in path.read_bytes()
+
+    lith = Lithium()
+    lith.testcase, lith.condition_script, lith.condition_args, lith.strategy = tc, Test, [], Minimize()
+    os.chdir(start)
+    try:
+        try:
+            lith.run()
+            err = None
+        except BaseException as exc:  # pylint: disable=broad-except
+            err = exc
+    finally:
+        os.chdir(cwd)
+    ctx.evaluations += 1
+    ctx.bump("init-chdir")
+    case = dict(via="Lithium.run", init_hook="os.chdir(work)")
+    if err is not None:
+        ctx.fail("run-raises", f"run() with an init() hook that changes directory raised {type(err).__name__}: {err}", case)
+    if (work / "tmp1" / "original.txt").read_bytes() != b"older run" or sorted(os.listdir(work / "tmp1")) != ["original.txt"]:
+        ctx.fail("existing-dir-used", f"the older work/tmp1 was written into: {sorted(os.listdir(work / 'tmp1'))}", case)
+    made = [str(p.relative_to(p.parent.parent)) for base in (start, work) for p in base.iterdir() if p.is_dir() and p.name.startswith("tmp")
+            and not (base == work and p.name == "tmp1")]
+    used = [m for m in made if os.listdir((start.parent / m))]
+    empty = [m for m in made if not os.listdir((start.parent / m))]
+    if empty or len(used) != 1:
+        ctx.fail("tempdir-split", f"directories created: {made}; with files: {used}; left empty: {empty} — the run's temp directory must be one "
+                 "directory", case)
+    ctx.nontriv("init-chdir")
+
+
 def two_mains(ctx):
     """one Lithium object, two complete command-line runs (`main()`), both without --tempdir: the second run gets a
     directory of its own and the first run's directory stays as it was"""
@@ -420,6 +475,7 @@ def run(ctx) -> int:
     sequential(ctx)
     faults(ctx)
     whole_runs(ctx)
+    init_changes_directory(ctx)
     done = True
     for k, sets, limit in ((2, [(), (1,), (1, 2), (2,), (1, 3)], 1000), (3, [(), (1,), (2,), (1, 2)], 6000),
                            (4, [()] + ([(1,)] if ctx.thorough else []), 40000 if ctx.thorough else 4000)):
